@@ -64,8 +64,11 @@ class M(Model):
     def __init__(self, b):
         super().__init__(b)
         env = b.env
-        gen = env._generator
-        self.sr, self.sc, self.ch = int(gen.shelf_rows), int(gen.shelf_columns), int(gen.column_height)
+        gen = getattr(env, "_generator", None)
+        if gen is not None and all(hasattr(gen, n) for n in ("shelf_rows", "shelf_columns", "column_height")):
+            self.sr, self.sc, self.ch = int(gen.shelf_rows), int(gen.shelf_columns), int(gen.column_height)
+        else:  # constructor arguments of the menu entry (no dependence on a private attribute name)
+            self.sr, self.sc, self.ch = (int(b.meta[n]) for n in ("shelf_rows", "shelf_cols", "col_height"))
         self.H, self.W, self.shelf_loc, self.goals = documented_layout(self.sr, self.sc, self.ch)
         self.highway = ~self.shelf_loc
         self.A = int(env.num_agents)
@@ -160,11 +163,12 @@ class M(Model):
         a_eff = np.asarray(a, np.int64).copy()
         a_eff[k] = NOOP
         sim = self._sim(s, a_eff)
-        if sim["collision"] is not None:
-            want_last = bool(sim["collision"]) or int(s.step_count) + 1 >= self.T
-            if want_last != (int(ts2.step_type) == LAST):
-                out.append(("step type differs from the same step with the agent standing still",
-                            f"step_type {int(ts2.step_type)}, expected last={want_last}"))
+        # "the episode continues": LAST is only acceptable if the same step with agent k standing still ends the
+        # episode too (collision of other agents, time limit).  The converse (MID although the rules say LAST) is
+        # not an effect of the ignored move and is left to C09/C11.
+        if sim["collision"] is False and int(s.step_count) + 1 < self.T and int(ts2.step_type) == LAST:
+            out.append(("ignored forward ended the episode",
+                        f"step_type {int(ts2.step_type)} although nobody collides and the time limit is not reached"))
         return out
 
     # -------------------------------------------------------------------------- transition model
@@ -371,8 +375,7 @@ class M(Model):
             if carry[k] == 1 and cells[k] not in smap:
                 out.append(("agent carries a shelf but no shelf is on its cell", f"agent {k} at {cells[k]}"))
         if prev is not None:
-            if int(s.step_count) != int(prev.step_count) + 1:
-                out.append(("step_count not incremented", f"{int(prev.step_count)} -> {int(s.step_count)}"))
+            # (step_count and "one cell per step" are transition rules - C09/C11 -, not physical consistency)
             ppos, pd, pcarry = self._agents(prev)
             pspos = self._shelves(prev)
             if pspos.shape == spos.shape and ppos.shape == pos.shape:
@@ -393,10 +396,6 @@ class M(Model):
                     elif moved:
                         out.append(("a shelf that nobody carried moved",
                                     f"shelf {i}: {pspos[i].tolist()} -> {spos[i].tolist()}"))
-                for k in range(self.A):
-                    step = abs(int(pos[k][0]) - int(ppos[k][0])) + abs(int(pos[k][1]) - int(ppos[k][1]))
-                    if step > 1:
-                        out.append(("agent moved more than one cell", f"agent {k}: {ppos[k].tolist()} -> {pos[k].tolist()}"))
         return out
 
     # ------------------------------------------------------------------------------------ C08
@@ -415,12 +414,16 @@ class M(Model):
     # ------------------------------------------------------------------------------------ C10
     def validate_instance(self, s0):
         out = self.invariants(None, None, s0, None)
-        hw = np.asarray(self.env.highways).astype(bool)
-        if hw.shape != self.highway.shape or not np.array_equal(hw, self.highway):
-            out.append(("highway map differs from the documented layout", f"shape {hw.shape}"))
-        goals = sorted((int(y), int(x)) for x, y in np.asarray(self.env.goals).tolist())
-        if goals != sorted(self.goals):
-            out.append(("goal cells differ from the documented layout", f"{goals} vs {self.goals}"))
+        # the env's own highway / goal tables are compared with the documented layout where the env exposes them
+        # under these names (attribute names are not part of the documented interface: absent -> not compared)
+        if hasattr(self.env, "highways"):
+            hw = np.asarray(self.env.highways).astype(bool)
+            if hw.shape != self.highway.shape or not np.array_equal(hw, self.highway):
+                out.append(("highway map differs from the documented layout", f"shape {hw.shape}"))
+        if hasattr(self.env, "goals"):
+            goals = sorted((int(y), int(x)) for x, y in np.asarray(self.env.goals).tolist())
+            if goals != sorted(self.goals):
+                out.append(("goal cells differ from the documented layout", f"{goals} vs {self.goals}"))
         spos = self._shelves(s0)
         occ = np.zeros((self.H, self.W), bool)
         for r, c in spos.tolist():
@@ -428,11 +431,8 @@ class M(Model):
                 occ[r, c] = True
         if not np.array_equal(occ, self.shelf_loc):
             out.append(("initial shelves are not exactly on the documented shelf locations", ""))
-        _, _, carry = self._agents(s0)
-        if carry.any():
-            out.append(("an agent starts carrying a shelf", f"{carry.tolist()}"))
-        if int(s0.step_count) != 0:
-            out.append(("initial step_count != 0", str(int(s0.step_count))))
+        # (is_carrying at reset and step_count are not advertised instance invariants: not asserted under C10;
+        # an agent that "carries" without a shelf on its cell is caught by the invariants above)
         return out
 
     # ------------------------------------------------------------------------------------ C12
